@@ -248,8 +248,10 @@ class SenderOrigin(Component):
                 enc.append("f:%d:%s" % (op[1], "/".join(op[2]) if op[2] else "-"))
             else:
                 enc.append("k:" + (".".join(str(x) for x in op[1]) if op[1] else "-"))
-        return "video sender %d %d %d %s %d %d %d %s" % (SSRC, RTX_SSRC, PT, RTX_PT if case["rtx"] else "n", case["ts0"],
-                                                         case["seq0"], case["rtx_seq0"], ";".join(enc) if enc else "-")
+        # the request carries the negotiated codec list (Drv/Video.lean): [the codec] or [the codec, its rtx]
+        table = "%d:m:n" % PT + (",%d:r:%d" % (RTX_PT, PT) if case["rtx"] else "")
+        return "video sender %d %d %s %d %d %d %s" % (SSRC, RTX_SSRC, table, case["ts0"],
+                                                      case["seq0"], case["rtx_seq0"], ";".join(enc) if enc else "-")
 
     # -- origin-free view --------------------------------------------------------------------------
     @staticmethod
